@@ -7,14 +7,24 @@ from . import maps
 ID = "C02"
 LEVEL = "exploration"
 BUDGET = {"quick": 1600, "thorough": 360000}
-RULE = ("case = op list (set/rem/get/mem/resize/assign/copy/clear/bulk fill+drain) over Table<K,V> for (Int,Int), "
-        "(String,String), (Probe,Probe), (String,Int), (Int,String); keys from collision families (same home slot at every "
+RULE = ("case = op list (set/rem/get/mem/resize/assign/copy/clear/bulk fill+drain in ascending, descending and strided orders/"
+        "rebuild through the constructor's initial bindings new(Table,K,V,k1,v1,...)) over Table<K,V> for (Int,Int), "
+        "(String,String), (Probe,Probe), (String,Int), (Int,String), (Int,Probe), (Probe,Int), (Int,Blob16), (String,Blob16) and "
+        "plain structs whose size is not a multiple of 8 as key and/or value (Tri 3 bytes, Blob20 20 bytes); keys from "
+        "collision families (same home slot at every "
         "table size 5..1259, home slot = last slot, String keys colliding under MurmurHash64A), key arguments as stack "
-        "temporaries, heap objects, the table's own embedded keys and embedded values; after every mutation the whole "
+        "temporaries, heap objects, the table's own embedded keys and embedded values (get/mem), value arguments that are "
+        "the embedded value of another key of the same table (set(t,k,get(t,k2))); resize to 0, to counts up to 1300 and to "
+        "counts below len (refused or ignored: bindings unchanged); assign from Table/Tree sources, optionally onto a table that "
+        "was assigned from a map of other key/value types (other slot size) just before; after every mutation the whole "
         "table is compared with a dict (len, forward+backward iteration, mem/get over the key universe) and the robin-hood "
         "invariants are checked through the CELLO_VERIF accessor. non-trivial = at some point an entry sat displaced from "
         "its home slot (measured) AND the case contains a rem or an updating set. distinct = distinct case JSON.")
-ASSUMPTIONS = ["Python dict is the reference map", "white-box invariants read through Cello_Verif_Table_Slot (add-only hook)"]
+ASSUMPTIONS = ["Python dict is the reference map", "white-box invariants read through Cello_Verif_Table_Slot (add-only hook)",
+               "constructor bindings use unique keys (what a repeated key in the constructor means is not documented)",
+               "a set never passes the container's own embedded key, nor the value bound to the very key being set (self-assignment of String "
+               "is outside every listed property, DESIGN 8.3); a value embedded under a different key is ordinary user code",
+               "resize(t, n) with 0 < n < len may raise (FormatError when bound checks are on) or do nothing; only the unchanged bindings are asserted"]
 
 
 def prepare(tier):
